@@ -208,9 +208,9 @@ Props/C11.vos Props/C11.vok Props/C11.required_vos: Props/C11.v Base/Bytes.vos B
 Props/C12.vo Props/C12.glob Props/C12.v.beautified Props/C12.required_vo: Props/C12.v Base/Bytes.vo Base/Endian.vo Base/Dec.vo Model/Rdb.vo Spec/RdbFormat.vo Spec/Compact.vo Model/Cupcake.vo Proofs/RdbProofs.vo Proofs/CupcakeProofs.vo Proofs/WriterProofs.vo
 Props/C12.vio: Props/C12.v Base/Bytes.vio Base/Endian.vio Base/Dec.vio Model/Rdb.vio Spec/RdbFormat.vio Spec/Compact.vio Model/Cupcake.vio Proofs/RdbProofs.vio Proofs/CupcakeProofs.vio Proofs/WriterProofs.vio
 Props/C12.vos Props/C12.vok Props/C12.required_vos: Props/C12.v Base/Bytes.vos Base/Endian.vos Base/Dec.vos Model/Rdb.vos Spec/RdbFormat.vos Spec/Compact.vos Model/Cupcake.vos Proofs/RdbProofs.vos Proofs/CupcakeProofs.vos Proofs/WriterProofs.vos
-Props/C13.vo Props/C13.glob Props/C13.v.beautified Props/C13.required_vo: Props/C13.v Base/Bytes.vo Model/Filter.vo Model/CmdFilter.vo Gen/CmdTable.vo Proofs/CmdFilterProofs.vo
-Props/C13.vio: Props/C13.v Base/Bytes.vio Model/Filter.vio Model/CmdFilter.vio Gen/CmdTable.vio Proofs/CmdFilterProofs.vio
-Props/C13.vos Props/C13.vok Props/C13.required_vos: Props/C13.v Base/Bytes.vos Model/Filter.vos Model/CmdFilter.vos Gen/CmdTable.vos Proofs/CmdFilterProofs.vos
+Props/C13.vo Props/C13.glob Props/C13.v.beautified Props/C13.required_vo: Props/C13.v Base/Bytes.vo Model/Filter.vo Model/CmdFilter.vo Gen/CmdTable.vo Spec/RedisKeySpecs.vo Proofs/CmdFilterProofs.vo
+Props/C13.vio: Props/C13.v Base/Bytes.vio Model/Filter.vio Model/CmdFilter.vio Gen/CmdTable.vio Spec/RedisKeySpecs.vio Proofs/CmdFilterProofs.vio
+Props/C13.vos Props/C13.vok Props/C13.required_vos: Props/C13.v Base/Bytes.vos Model/Filter.vos Model/CmdFilter.vos Gen/CmdTable.vos Spec/RedisKeySpecs.vos Proofs/CmdFilterProofs.vos
 Props/C14.vo Props/C14.glob Props/C14.v.beautified Props/C14.required_vo: Props/C14.v Base/Bytes.vo Base/Dec.vo Model/RespCodec.vo Model/Checkpoint.vo Proofs/CheckpointProofs.vo
 Props/C14.vio: Props/C14.v Base/Bytes.vio Base/Dec.vio Model/RespCodec.vio Model/Checkpoint.vio Proofs/CheckpointProofs.vio
 Props/C14.vos Props/C14.vok Props/C14.required_vos: Props/C14.v Base/Bytes.vos Base/Dec.vos Model/RespCodec.vos Model/Checkpoint.vos Proofs/CheckpointProofs.vos
@@ -247,6 +247,9 @@ Spec/RdbFormat.vos Spec/RdbFormat.vok Spec/RdbFormat.required_vos: Spec/RdbForma
 Spec/RdbRecords.vo Spec/RdbRecords.glob Spec/RdbRecords.v.beautified Spec/RdbRecords.required_vo: Spec/RdbRecords.v Base/Bytes.vo Base/Endian.vo Spec/RdbFormat.vo Model/Digest.vo Model/Rdb.vo
 Spec/RdbRecords.vio: Spec/RdbRecords.v Base/Bytes.vio Base/Endian.vio Spec/RdbFormat.vio Model/Digest.vio Model/Rdb.vio
 Spec/RdbRecords.vos Spec/RdbRecords.vok Spec/RdbRecords.required_vos: Spec/RdbRecords.v Base/Bytes.vos Base/Endian.vos Spec/RdbFormat.vos Model/Digest.vos Model/Rdb.vos
+Spec/RedisKeySpecs.vo Spec/RedisKeySpecs.glob Spec/RedisKeySpecs.v.beautified Spec/RedisKeySpecs.required_vo: Spec/RedisKeySpecs.v 
+Spec/RedisKeySpecs.vio: Spec/RedisKeySpecs.v 
+Spec/RedisKeySpecs.vos Spec/RedisKeySpecs.vok Spec/RedisKeySpecs.required_vos: Spec/RedisKeySpecs.v 
 Spec/Slot.vo Spec/Slot.glob Spec/Slot.v.beautified Spec/Slot.required_vo: Spec/Slot.v Base/Bytes.vo Base/Table.vo Spec/Crc16.vo
 Spec/Slot.vio: Spec/Slot.v Base/Bytes.vio Base/Table.vio Spec/Crc16.vio
 Spec/Slot.vos Spec/Slot.vok Spec/Slot.required_vos: Spec/Slot.v Base/Bytes.vos Base/Table.vos Spec/Crc16.vos
